@@ -211,7 +211,7 @@ func runCard(dir string, emit func(interface{}), conc *xmlt.Conc, mod, rem int) 
 			if rerr != nil {
 				cev["wf"] = false
 			} else {
-				cev["doc"] = []xmlt.Node{doc}
+				cev["doc"] = []xmlt.Node{emptyTexts(doc, conc)}
 			}
 		}
 		emit(cev)
